@@ -72,6 +72,15 @@ pub enum Event {
     },
     /// exit of `DefaultKKTSystem::solve`: the direction it assembled, the right-hand side it
     /// was given and the iterate it linearised about (dir 0 = affine, 1 = combined)
+    /// exit of `DefaultKKTSystem::solve_initial_point` (before the shift into the cones):
+    /// the point it produced; `lp` = the P = 0 branch was taken
+    InitPoint {
+        x: Vec<f64>,
+        s: Vec<f64>,
+        z: Vec<f64>,
+        lp: bool,
+        ok: bool,
+    },
     KktSolve {
         dir: u32,
         lhs_x: Vec<f64>,
